@@ -43,7 +43,14 @@ class VLock(object):
             self.depth += 1
             return True
         s.log('lock_req', lock=self.name)
-        s.yield_point(blocked_on=lambda: self._free_for(t))
+        if not blocking:
+            # try-lock: a scheduling point, then succeed only if the lock is free right now
+            s.yield_point()
+            if not self._free_for(t):
+                s.log('acquire_failed', lock=self.name)
+                return False
+        else:
+            s.yield_point(blocked_on=lambda: self._free_for(t))
         self.owner = t
         self.depth += 1
         s.log('acquire', lock=self.name, depth=self.depth)
